@@ -284,11 +284,18 @@ Preload ==
     /\ UNCHANGED <<cfg, rof, cur, plan, att, ret, clean, rel, pend, rcur, nd, outs, hist, ncut>>
 
 (* ---- response._connection = response_conn; clean_exit = True ---- *)
+(* A preloaded response that was handed the connection (release_conn=False) gives it back at once in        *)
+(* _make_request: its body was read to the end while it was being built, before _connection was known.     *)
+(* The named deviation C01_F1 is the tree before that repair (finding C01-F1): no release here, and stream() *)
+(* on the exhausted body performs no read, so nothing ever releases.  It is kept only as a deviation run    *)
+(* that TLC must refute (SlotsRestored).                                                                    *)
 Ok ==
     /\ pc = "ok"
-    /\ resp' = [resp EXCEPT ![rcur].conn = IF cfg.release THEN NONE ELSE cur]
+    /\ LET w0 == [World EXCEPT !.rs[rcur].conn = IF cfg.release THEN NONE ELSE cur]
+           w1 == IF cfg.preload /\ ~cfg.release /\ ~Has("C01_F1") THEN WRelease(w0, rcur) ELSE w0 IN
+       /\ queue' = w1.q /\ conns' = w1.cn /\ socks' = w1.sk /\ resp' = w1.rs
     /\ clean' = TRUE /\ pc' = "finally"
-    /\ UNCHANGED <<cfg, queue, conns, socks, rof, cur, plan, att, ret, err, rel, pend, rcur, nd, inj, outs, hist, ncut>>
+    /\ UNCHANGED <<cfg, rof, cur, plan, att, ret, err, rel, pend, rcur, nd, inj, outs, hist, ncut>>
 
 (* ---- the except tuple of urlopen, the translation table and retries.increment ---- *)
 Caught == {"NewConnectionError", "ConnectTimeoutError", "ReadTimeoutError", "ProtocolError", "OSError",
@@ -365,9 +372,9 @@ DisposeResp ==
             /\ resp' = [x.w.rs EXCEPT ![k].live = FALSE]
             /\ outs' = Append(outs, [res |-> IF out = "ok" THEN "response" ELSE "raised",
                                      cls |-> IF out = "ok" THEN "none" ELSE ClassOf(out), inj |-> out = "Interrupt"])
-            \* dev: this step passes through the point where the recorded deviation C01-F1 differs from the design
+            \* dev: names a recorded deviation whose point this step passes through (none is recorded at present)
             /\ hist' = Append(hist, [op |-> "disp", id |-> i, atts |-> <<>>, how |-> how, out |-> out, dials |-> 0,
-                                     dev |-> IF how = "stream" /\ ~resp[k].fp /\ resp[k].conn # NONE THEN "C01_F1" ELSE ""])
+                                     dev |-> ""])
     /\ UNCHANGED <<cfg, rof, pc, cur, plan, att, ret, err, clean, rel, pend, rcur, nd, inj, ncut>>
 
 (* ---- environment: the server cuts an idle pooled keep-alive connection ---- *)
